@@ -60,7 +60,20 @@ def check_ob(fc, pv, ob, rng):
         if ob.ok:
             return 'discharged', 'engine', ob.detail or 'holds on this path', None, False, None
         if ob.definite:
-            return 'violated', 'engine', ob.detail, ob.witness, False, None
+            # definite only with a concrete input that drives execution down this path (or when the path has no algebraic condition)
+            wit = dict(ob.witness or {})
+            if pv is not None and (pv.zero_facts() or pv.nonzero_facts()):
+                m = find_model(fc, pv, rng)
+                if m is None:
+                    return 'undecided', 'engine', ob.detail + ' | no concrete input found that takes this path', None, False, None
+                wit['concrete_input_on_this_path'] = m
+            replayed, replay = False, None
+            if ob.replay_fn is not None:
+                try:
+                    replayed, replay = ob.replay_fn()
+                except Exception as ex:     # noqa  replay trouble never changes the verdict
+                    replay = {'error': repr(ex)}
+            return 'violated', 'engine', ob.detail, wit, replayed, replay
         return 'undecided', 'engine', ob.detail, None, False, None
     if isinstance(ob, ConstEq):
         got, want = ob.got, ob.want
@@ -71,6 +84,11 @@ def check_ob(fc, pv, ob, rng):
             return 'discharged', 'cpython', 'source constant %s == standard value%s' % (hex(got), ' (mod p)' if ob.mod else ''), None, False, None
         return 'violated', 'cpython', 'source constant %s != standard value %s' % (hex(got), hex(want % ob.mod if ob.mod else want)), \
             {'source_constant': hex(got), 'standard': hex(want % ob.mod if ob.mod else want)}, False, None
+    if isinstance(ob, (Zero, NotIdentZero, NonZero)):
+        # every obligation of a path is conditional on the facts that select the path
+        ob.hyps = list(ob.hyps) + [f for f in pv.zero_facts() if f not in ob.hyps]
+        if hasattr(ob, 'ne'):
+            ob.ne = list(ob.ne) + [f for f in pv.nonzero_facts() if f not in ob.ne]
     if isinstance(ob, Zero):
         nf = poly.normal_form(ob.expr, ob.hyps, ob.gens)
         if nf.zero:
@@ -84,8 +102,10 @@ def check_ob(fc, pv, ob, rng):
             if s is None:
                 break
             asg, p, meta = s
-            tried += 1
             try:
+                if not _satisfies(asg, p, ob.hyps, ob.ne):
+                    continue            # the random input is not on this path (e.g. path fact x2 == 0)
+                tried += 1
                 n, d = poly.eval_mod(ob.expr, asg, p)
             except KeyError as ke:
                 detail += ' | witness search impossible: %s' % ke
@@ -101,9 +121,10 @@ def check_ob(fc, pv, ob, rng):
                 wit.setdefault('curve', (meta or {}).get('curve'))
                 wit['obligation_value_mod_p'] = hex(n)
                 break
-        if not found and tried:
-            detail += ' | no witness among %d random valid inputs (residual vanishes there)' % tried
-            if ob.ne or any(True for _ in pv.zero_facts()):
+        if not found:
+            detail += ' | no witness among %d random valid inputs on this path' % tried
+            if pv is not None and (pv.zero_facts() or pv.nonzero_facts()):
+                # the hypotheses contain path facts: without a concrete input on this path the failure is not reported as definite
                 return 'undecided', 'sympy', detail, None, False, None
         return 'violated', 'sympy', detail, wit, replayed, replay
     if isinstance(ob, NotIdentZero):
@@ -123,17 +144,43 @@ def check_ob(fc, pv, ob, rng):
     raise TypeError(ob)
 
 
+def _satisfies(asg, p, eqs, nes):
+    for h in eqs:
+        n, d = poly.eval_mod(h, asg, p)
+        if n != 0:
+            return False
+    for h in nes:
+        n, d = poly.eval_mod(h, asg, p)
+        if n == 0:
+            return False
+    return True
+
+
+def find_model(fc, pv, rng):
+    """a concrete input (over the real prime) satisfying the algebraic facts that select this path"""
+    for asg, p, meta in fc.candidates(rng):
+        try:
+            if _satisfies(asg, p, pv.zero_facts(), pv.nonzero_facts()):
+                syms = set()
+                for f in pv.zero_facts() + pv.nonzero_facts():
+                    syms |= {s.name for s in f.free_symbols}
+                return {'curve': (meta or {}).get('curve'), 'values': {k: hex(v) for k, v in asg.items() if k in syms}}
+        except KeyError:
+            continue
+    return None
+
+
 def verify_function(tu, fc, prop=None, seed=0, robustness=None):
     """returns (function_record, results, used_prims)"""
     prop = prop or fc.prop
     robustness = fc.explore_failures if robustness is None else robustness
     t0 = time.time()
-    rng = random.Random(seed * 1000003 + hash(fc.function) % 1000)
     rng = random.Random('%d/%s' % (seed, fc.function))
     results = []
     used = set()
     npaths = 0
     unsupported = []
+    hypsets = {}
     for cfg in fc.configs:
         tc = time.time()
         try:
@@ -163,6 +210,8 @@ def verify_function(tu, fc, prop=None, seed=0, robustness=None):
                 t1 = time.time()
                 try:
                     st, be, det, wit, rp, rpl = check_ob(fc, pv, ob, rng)
+                    if getattr(ob, 'hyps', None):
+                        hypsets.setdefault(tuple(sorted(str(h) for h in ob.hyps)), list(ob.hyps))
                 except Unsupported as ex:
                     st, be, det, wit, rp, rpl = 'undecided', 'engine', str(ex), None, False, None
                 except Exception as ex:     # noqa
@@ -199,6 +248,14 @@ def verify_function(tu, fc, prop=None, seed=0, robustness=None):
     if not real and not unsupported:
         ob = Holds('vacuity', 'the contract yields at least one obligation', False, 'zero obligations generated', kind='vacuity')
         results.append(_mk(prop, fc, ob, None, 'error', 'engine', 0, 'vacuity guard: function %s produced no obligation' % fc.function))
+    # canary (DESIGN.md 2.7): under every hypothesis set that was used, the false goal `1 == 0` must NOT be discharged
+    if real and hypsets:
+        t1 = time.time()
+        badh = [k for k, h in hypsets.items() if poly.normal_form(sp.Integer(1), h).zero]
+        ob = Holds('canary', 'the false identity 1 == 0 is not discharged under any of the %d hypothesis sets used (the hypotheses do not generate the unit ideal)' % len(hypsets),
+                   not badh, 'inconsistent hypothesis sets: %s' % badh[:2] if badh else '1 has a non-zero normal form under each hypothesis set', kind='vacuity')
+        r = _mk(prop, fc, ob, None, 'discharged' if not badh else 'error', 'sympy', time.time() - t1, ob.detail)
+        results.append(r)
     # vacuity guard on the hypotheses: a concrete valid input exists (so the identities are not discharged from inconsistent hypotheses)
     if real:
         s = fc.sample(rng)
